@@ -50,6 +50,9 @@ type Job struct {
 // Line is one line of worker output.
 type Line struct {
 	Start *int            `json:"start,omitempty"` // journal: item index about to be processed
+	A     *int            `json:"a,omitempty"`     // journal: successor index about to be executed
+	Act   *Action         `json:"act,omitempty"`   // journal: that successor's action
+	Viol  *Violation      `json:"viol,omitempty"`  // journal: violation found right before the worker had to exit (hang)
 	I     int             `json:"i"`
 	Succs []Succ          `json:"succs,omitempty"`
 	Done  bool            `json:"done,omitempty"`
@@ -77,4 +80,14 @@ type ShardViol struct {
 	Viol  Violation       `json:"viol"`
 	Hist  []Action        `json:"hist,omitempty"`
 	Extra json.RawMessage `json:"extra,omitempty"`
+}
+
+// CaseOut is the result of one case of a case-enumerating shard job (one line per case, so that a
+// worker that dies or must exit can be resumed behind the case in flight).
+type CaseOut struct {
+	Name        string          `json:"name"`
+	Outcome     string          `json:"outcome"`
+	Transitions int             `json:"transitions"`
+	Viol        *Violation      `json:"viol,omitempty"`
+	Extra       json.RawMessage `json:"extra,omitempty"`
 }
